@@ -328,15 +328,86 @@ func c05ToNumberList() []string {
 	return out
 }
 
+// c05Ladder: state that survives between evaluations (memo tables keyed by a
+// number's text, scratch buffers sized by an earlier operand).  One long
+// number text is fed prefix by prefix, shortest first, so that every text is
+// evaluated right after all of its own prefixes, then the same texts
+// longest first; each step is compared with the exact model.
+func c05Ladder(c *Ctx, idx int) {
+	r := c.Rand("")
+	nd := 20 + r.Intn(15) // significant digits, at most 34: every prefix is exactly representable
+	var b strings.Builder
+	if r.Chance(30) {
+		b.WriteByte('-')
+	}
+	point := -1
+	if r.Chance(60) {
+		point = 1 + r.Intn(nd-1)
+	}
+	for i := 0; i < nd; i++ {
+		if i == point {
+			b.WriteByte('.')
+		}
+		d := byte('0' + r.Intn(10))
+		if i == 0 || r.Chance(25) {
+			d = byte('1' + r.Intn(9))
+		}
+		if r.Chance(10) {
+			d = '9'
+		}
+		b.WriteByte(d)
+	}
+	full := b.String()
+	var steps []string
+	for l := 1; l <= len(full); l++ {
+		if p := full[:l]; ref.IsJSONNumber(p) {
+			steps = append(steps, p)
+		}
+	}
+	if r.Chance(50) {
+		// and exponent forms sharing the mantissa text
+		e := gen.Pick(r, []string{"e1", "E-2", "e+10", "e-20"})
+		steps = append(steps, full+e)
+	}
+	order := append([]string{}, steps...)
+	for i := len(steps) - 1; i >= 0; i-- {
+		order = append(order, steps[i])
+	}
+	prev := "0"
+	decided := 0
+	for _, p := range order {
+		doc := ref.NewObj()
+		doc.Set("a", gen.Num(prev))
+		doc.Set("b", gen.Num(p))
+		for _, text := range []string{"[b - a, a == b, a < b, abs(b), sum([a, b]), floor(b), b * `1`]", "[`" + p + "` - `" + prev + "`, `" + prev + "` == `" + p + "`, -(`" + p + "`), ceil(`" + p + "`), to_number('" + p + "')]"} {
+			for _, rt := range []struct {
+				m ref.NumMode
+				n string
+			}{{ref.JSONNumber, "json.Number"}, {decimalMode, "decimal128"}} {
+				m := c05Check(c, text, doc, rt.m, rt.n+"/ladder")
+				if !m.Unspec {
+					decided++
+				}
+			}
+		}
+		prev = p
+	}
+	if decided > 0 {
+		c.Nontrivial("ladder", full)
+		c.Count("ladder_steps_decided", int64(decided))
+	}
+}
+
 func init() {
 	Register(&Property{
 		ID:            "C05",
-		Rule:          "decimal operands (a 60-value boundary pool squared x 12 operators - exhaustive; seeded operands of 1..34 (sometimes 40) significant digits in nines/carry/tie/random patterns with exponents across the decimal128 range, cancelling pairs) through + - * / // % (all spellings), unary signs, comparisons, sum/avg/abs/ceil/floor/max/min/sort/to_number, each travelling as json.Number in the document, as a literal and as decimal128 values; outcomes compared with exact big.Rat arithmetic: equal when the exact result has <= 34 significant digits, within one unit of the 34th digit otherwise, not-a-number error for division by zero and overflow, never an infinity/NaN value; non-trivial = the model decides the case; distinct by (expression, operands, route)",
+		Rule:          "decimal operands (a 60-value boundary pool squared x 12 operators - exhaustive; seeded operands of 1..34 (sometimes 40) significant digits in nines/carry/tie/random patterns with exponents across the decimal128 range, cancelling pairs) through + - * / // % (all spellings), unary signs, comparisons, sum/avg/abs/ceil/floor/max/min/sort/to_number, each travelling as json.Number in the document, as a literal and as decimal128 values; outcomes compared with exact big.Rat arithmetic: equal when the exact result has <= 34 significant digits, within one unit of the 34th digit otherwise, not-a-number error for division by zero and overflow, never an infinity/NaN value; ladder stream: one 20..34-digit number text fed prefix by prefix (shortest first, then longest first) through the same operators within one process, so that every text is evaluated right after its own prefixes (text-keyed memo tables, reused buffers); non-trivial = the model decides the case; distinct by (expression, operands, route)",
 		MinNontrivial: 2000,
 		Streams: []Stream{
 			{Name: "lists", N: func(c *Ctx) int { return len(c05Canaries) + len(c05ToNumberList()) }, Run: c05Lists, Exhaustive: true},
 			{Name: "pool", N: func(c *Ctx) int { return len(c05Pool) * len(c05Pool) * len(c05Ops) }, Run: c05PoolRun, Exhaustive: true},
 			{Name: "random", N: func(c *Ctx) int { return tierN(c, 60000, 1500000) }, Run: c05Random},
+			{Name: "ladder", N: func(c *Ctx) int { return tierN(c, 400, 20000) }, Run: c05Ladder},
 		},
 	})
 }
